@@ -200,6 +200,10 @@ struct Exec {
 Exec *g_ex = nullptr;
 
 std::string pad4(const std::string &v) { std::string e = v; e.resize(4, '.'); return e; }
+// list elements come in two sizes (4 and 12 bytes, by the parity of the value's last digit), so that the
+// number of elements and their total size can move independently
+std::string padL(const std::string &v) { std::string e = v; bool big = !v.empty() && ((v.back() - '0') & 1); e.resize(big ? 12 : 4, '.'); return e; }
+std::string padK(int kind, const std::string &v) { return kind == K_LIST ? padL(v) : pad4(v); }
 
 std::string do_op(const Prog &p, void *c, const Op &o) {
     void *r; size_t n = 0;
@@ -248,17 +252,17 @@ std::string do_op(const Prog &p, void *c, const Op &o) {
                 case 15: return std::to_string((long long)qstack_popint(q));
                 default: return std::to_string((long long)qstack_getint(q));
             } }
-            { qlist_t *l = (qlist_t *)c; std::string e = pad4(o.val);
+            { qlist_t *l = (qlist_t *)c; std::string e = padL(o.val);
             switch (o.code) {
-                case 0: return qlist_addlast(l, e.data(), 4) ? "T" : "F";
-                case 1: return qlist_addfirst(l, e.data(), 4) ? "T" : "F";
+                case 0: return qlist_addlast(l, e.data(), e.size()) ? "T" : "F";
+                case 1: return qlist_addfirst(l, e.data(), e.size()) ? "T" : "F";
                 case 2: r = qlist_popfirst(l, &n); break;
                 case 3: r = qlist_poplast(l, &n); break;
                 case 4: r = qlist_getfirst(l, &n, true); break;
                 case 5: qlist_clear(l); return "";
                 case 6: { r = qlist_toarray(l, &n); if (!r) return "NULL"; std::string s((char *)r, n); free(r); return s; }
                 case 7: return qlist_removefirst(l) ? "T" : "F";
-                case 8: return qlist_addat(l, 1, e.data(), 4) ? "T" : "F";
+                case 8: return qlist_addat(l, 1, e.data(), e.size()) ? "T" : "F";
                 case 9: r = qlist_getlast(l, &n, true); break;
                 case 11: { qlist_obj_t ob; memset(&ob, 0, sizeof ob); size_t g = 0; while (qlist_getnext(l, &ob, true) && g++ < 100) free(ob.data); return ""; }
                 case 12: r = qlist_getat(l, 1, &n, true); break;
@@ -421,11 +425,11 @@ void verdict(Ctx &c, const Prog &p, const Exec &ex) {
     if (S.leak) c.fail(LIN | LOCK, (std::string("conc:lock-leaked:") + kname(p)).c_str(), "%s: %s", S.leak_at_exit ? "a thread finished its operations still holding the container lock (more acquisitions than releases)" : "all remaining threads wait for the container lock although no thread is inside an operation that could release it", describe(p, ex).c_str());
     Model m; m.kind = p.kind; m.unique = p.unique; m.limit = p.limit; m.wrap = p.wrap;
     bool padded = p.kind <= K_LIST && !p.wrap;
-    for (size_t i = 0; i < p.init.size(); i++) { Op o; o.code = 0; o.key = "k" + std::to_string(i); o.val = padded ? pad4(p.init[i]) : p.init[i]; m.apply(o); }
+    for (size_t i = 0; i < p.init.size(); i++) { Op o; o.code = 0; o.key = "k" + std::to_string(i); o.val = padded ? padK(p.kind, p.init[i]) : p.init[i]; m.apply(o); }
     std::vector<bool> done(ex.hist.size(), false);
     // the model works on padded element values for sequences
     Prog q = p;
-    if (padded) for (auto &t : q.thr) for (auto &o : t) o.val = pad4(o.val);
+    if (padded) for (auto &t : q.thr) for (auto &o : t) o.val = padK(p.kind, o.val);
     if (!lin_search(q, ex.hist, done, m, 0, ex.final_contents, nullptr)) {
         std::string ops; for (auto &o : ex.hist) ops += opname(p.kind, p.thr[(size_t)o.thr][(size_t)o.idx].code), ops += "+";
         c.fail(LIN, (std::string("conc:not-linearizable:") + kname(p)).c_str(), "no one-at-a-time order of the calls explains the results and final contents: %s", describe(p, ex).c_str());
